@@ -3,10 +3,12 @@ use crate::Cfg;
 use serde_json::Value;
 
 pub mod c08;
+pub mod c09;
 
 pub fn run(cfg: &Cfg) -> Option<Report> {
     Some(match cfg.prop.as_str() {
         "C08" => c08::run(cfg),
+        "C09" => c09::run(cfg),
         _ => return None,
     })
 }
@@ -14,6 +16,7 @@ pub fn run(cfg: &Cfg) -> Option<Report> {
 pub fn replay(cfg: &Cfg, case: &Value) -> Option<Report> {
     Some(match cfg.prop.as_str() {
         "C08" => c08::replay(cfg, case),
+        "C09" => c09::replay(cfg, case),
         _ => return None,
     })
 }
